@@ -144,19 +144,36 @@ pub mod simhash {
         }
     }
 
-    impl<K, V> IntoIterator for HashMap<K, V> {
-        type Item = (K, V);
-        type IntoIter = std::collections::hash_map::IntoIter<K, V>;
-        fn into_iter(self) -> Self::IntoIter {
-            self.0.into_iter()
+    // Iteration order is made a function of (seed, key set) only: entries are visited in the order of
+    // their seeded hash. The order std gives also depends on the insertion history (collisions), which
+    // in turn depends on revm's randomly seeded maps and would differ between processes.
+    impl<K: Hash + Eq, V> HashMap<K, V> {
+        pub fn iter(&self) -> std::vec::IntoIter<(&K, &V)> {
+            let mut v: Vec<(u64, (&K, &V))> = self.0.iter().map(|e| (self.0.hasher().hash_one(e.0), e)).collect();
+            v.sort_by_key(|e| e.0);
+            v.into_iter().map(|e| e.1).collect::<Vec<_>>().into_iter()
+        }
+        pub fn keys(&self) -> std::vec::IntoIter<&K> {
+            self.iter().map(|e| e.0).collect::<Vec<_>>().into_iter()
         }
     }
 
-    impl<'a, K, V> IntoIterator for &'a HashMap<K, V> {
-        type Item = (&'a K, &'a V);
-        type IntoIter = std::collections::hash_map::Iter<'a, K, V>;
+    impl<K: Hash + Eq, V> IntoIterator for HashMap<K, V> {
+        type Item = (K, V);
+        type IntoIter = std::vec::IntoIter<(K, V)>;
         fn into_iter(self) -> Self::IntoIter {
-            self.0.iter()
+            let state = self.0.hasher().clone();
+            let mut v: Vec<(u64, (K, V))> = self.0.into_iter().map(|e| (state.hash_one(&e.0), e)).collect();
+            v.sort_by_key(|e| e.0);
+            v.into_iter().map(|e| e.1).collect::<Vec<_>>().into_iter()
+        }
+    }
+
+    impl<'a, K: Hash + Eq, V> IntoIterator for &'a HashMap<K, V> {
+        type Item = (&'a K, &'a V);
+        type IntoIter = std::vec::IntoIter<(&'a K, &'a V)>;
+        fn into_iter(self) -> Self::IntoIter {
+            self.iter()
         }
     }
 
@@ -181,11 +198,14 @@ pub mod simhash {
         }
     }
 
-    impl<K> IntoIterator for HashSet<K> {
+    impl<K: Hash + Eq> IntoIterator for HashSet<K> {
         type Item = K;
-        type IntoIter = std::collections::hash_set::IntoIter<K>;
+        type IntoIter = std::vec::IntoIter<K>;
         fn into_iter(self) -> Self::IntoIter {
-            self.0.into_iter()
+            let state = self.0.hasher().clone();
+            let mut v: Vec<(u64, K)> = self.0.into_iter().map(|k| (state.hash_one(&k), k)).collect();
+            v.sort_by_key(|e| e.0);
+            v.into_iter().map(|e| e.1).collect::<Vec<_>>().into_iter()
         }
     }
 
